@@ -135,3 +135,73 @@ pub fn r_events(evs: &[Event]) -> String {
 pub fn sev_stage(d: &SourceDiag) -> (&'static str, &'static str) {
     (match d.severity { Severity::Error => "E", Severity::Warning => "W" }, match d.stage { Stage::Parse => "P", Stage::Analysis => "A" })
 }
+
+// ---------- analysis results ----------
+use cooklang::model::{ComponentRelation, Content, IngredientReferenceTarget, Item};
+use cooklang::{ScalableRecipe, ScalableValue, Quantity};
+
+pub fn r_str(s: &str) -> String { if s.is_empty() { "''".into() } else { r_cps(s) } }
+fn r_svalue(v: &ScalableValue) -> String {
+    match v { ScalableValue::Fixed(v) => format!("fixed:{}", r_value(v)), ScalableValue::Linear(v) => format!("linear:{}", r_value(v)) }
+}
+fn r_squantity(q: &Quantity<ScalableValue>) -> String { format!("{}%{}", r_svalue(q.value()), r_opt(q.unit(), r_str)) }
+fn r_item(i: &Item) -> String {
+    match i {
+        Item::Text { value } => format!("t:{}", r_str(value)),
+        Item::Ingredient { index } => format!("i:{index}"),
+        Item::Cookware { index } => format!("c:{index}"),
+        Item::Timer { index } => format!("m:{index}"),
+        Item::InlineQuantity { index } => format!("q:{index}"),
+    }
+}
+fn r_content(c: &Content) -> String {
+    match c {
+        Content::Step(s) => format!("STEP({};{})", s.number, s.items.iter().map(r_item).collect::<Vec<_>>().join(",")),
+        Content::Text(t) => format!("TEXT({})", r_str(t)),
+    }
+}
+fn r_relation(r: &ComponentRelation) -> String {
+    match r {
+        ComponentRelation::Definition { referenced_from, defined_in_step } =>
+            format!("def[{}]{}", referenced_from.iter().map(|x| x.to_string()).collect::<Vec<_>>().join(","), if *defined_in_step { "+" } else { "-" }),
+        ComponentRelation::Reference { references_to } => format!("ref{references_to}"),
+    }
+}
+
+pub fn external_kind(k: &str) -> bool {
+    k == "std-unsupported-value" || k == "time-overridden" || k == "time-overridden-fm" || k.starts_with("other:")
+}
+
+pub fn r_diag_full(d: &SourceDiag) -> String { let (s, st) = sev_stage(d); format!("{s}{st}{}", r_diag(d)) }
+
+pub fn r_recipe(r: &ScalableRecipe, with_meta: bool) -> String {
+    let secs: Vec<String> = r.sections.iter().map(|s| format!("SECT({};{})", r_opt(s.name.as_deref(), r_str), s.content.iter().map(r_content).collect::<Vec<_>>().join(","))).collect();
+    let ings: Vec<String> = r.ingredients.iter().map(|i| {
+        let rel = if let Some((t, target)) = i.relation.references_to() {
+            format!("ref{t}>{}", match target { IngredientReferenceTarget::Ingredient => "ingredient", IngredientReferenceTarget::Step => "step", IngredientReferenceTarget::Section => "section" })
+        } else {
+            format!("def[{}]{}>-", i.relation.referenced_from().iter().map(|x| x.to_string()).collect::<Vec<_>>().join(","), if i.relation.is_defined_in_step() == Some(true) { "+" } else { "-" })
+        };
+        format!("I({};{};{};{};{};{};{})", r_str(&i.name), r_opt(i.alias.as_deref(), r_str), r_opt(i.quantity.as_ref(), r_squantity), r_opt(i.note.as_deref(), r_str),
+            r_opt(i.reference.as_ref(), |rf| format!("{}/{}", r_str(&rf.name), rf.components.iter().map(|c| r_str(c)).collect::<Vec<_>>().join("/"))),
+            rel, i.modifiers().bits())
+    }).collect();
+    let cws: Vec<String> = r.cookware.iter().map(|c| format!("C({};{};{};{};{};{})", r_str(&c.name), r_opt(c.alias.as_deref(), r_str), r_opt(c.quantity.as_ref(), r_svalue), r_opt(c.note.as_deref(), r_str), r_relation(&c.relation), c.modifiers().bits())).collect();
+    let tms: Vec<String> = r.timers.iter().map(|t| format!("M({};{})", r_opt(t.name.as_deref(), r_str), r_opt(t.quantity.as_ref(), r_squantity))).collect();
+    let iqs: Vec<String> = r.inline_quantities.iter().map(|q| format!("IQ({}%{})", r_value(q.value()), r_opt(q.unit(), r_str))).collect();
+    let mut s = format!("sections=[{}] ingredients=[{}] cookware=[{}] timers=[{}] inline=[{}]", secs.join(" "), ings.join(" "), cws.join(" "), tms.join(" "), iqs.join(" "));
+    if with_meta {
+        let m: Vec<String> = r.metadata.map.iter().map(|(k, v)| format!("{}={}", r_str(k.as_str().unwrap_or("?")), r_str(v.as_str().unwrap_or("?")))).collect();
+        s.push_str(&format!(" meta=[{}]", m.join(" ")));
+    }
+    s
+}
+
+pub fn r_analysis(res: &cooklang::RecipeResult, has_front_matter: bool) -> String {
+    let ds: Vec<String> = res.report().iter().filter(|d| !external_kind(&diag_kind(d))).map(r_diag_full).collect();
+    let dstr = format!("diags=[{}]", ds.join(" "));
+    match res.output() {
+        None => format!("NOOUT {dstr}"),
+        Some(r) => format!("OUT {} {dstr}", r_recipe(r, !has_front_matter)),
+    }
+}
